@@ -263,7 +263,7 @@ func init() {
 			if tier == "thorough" {
 				return 1200
 			}
-			return 48
+			return 96
 		},
 		Run:       c05Run,
 		MustProbe: []string{"leaf_serial_listed_in_authentic_pck_crl", "qe_signer_revoked_separately", "revocation_without_collateral"},
